@@ -130,6 +130,131 @@ example : GenK.generate_graph_updates 12 (1000 : Nat) #[#[1, -1, 2]] #[#[0, -1, 
       (fun a b => if a[0]! ≤ b[0]! then b[0]! - a[0]! else a[0]! - b[0]!)
     = some #[#[(-1, -1, 1000), (1, 1, 0), (1, 2, 3), (1, 0, 1), (2, 2, 0), (2, 0, 4)]] := by decide +kernel
 
+/-- **All rows of a block at once (leaf updates).**  Corollary of `kernel_generate_leaf_updates_refines`: the whole
+result of the regenerated `generate_leaf_updates`, read through `updOf` and concatenated in block order, is the
+concatenation of the model's `leafUpdates` over the rows of `leaf_block` — the update list `init_rp_tree` hands to the
+applier for that block is exactly the one the model (`initRpTree`) feeds to `applyBoth`. -/
+theorem kernel_leaf_updates_all_rows {Q : Type} [LE Q] [LT Q] [DecidableLE Q] [DecidableLT Q]
+    (leaf_block : Array (Array Int)) (th : Array Q) (data : Array (Array Q))
+    (dist : Array Q → Array Q → Q) (top : Q) (w N : Nat)
+    (hw : ∀ r (h : r < leaf_block.size), leaf_block[r].size = w)
+    (hok : ∀ r (h : r < leaf_block.size), LeafRowOk leaf_block[r] data.size)
+    (hok' : ∀ r (h : r < leaf_block.size), LeafRowOk leaf_block[r] th.size)
+    (hN : ∀ r (h : r < leaf_block.size), LeafRowOk leaf_block[r] N)
+    (fuel : Nat) (hf : leaf_block.size + w + w + 2 ≤ fuel) :
+    ∃ U', GenK.generate_leaf_updates fuel top leaf_block th data dist = some U' ∧
+      U'.toList.flatMap (fun b => b.toList.filterMap updOf)
+        = leaf_block.toList.flatMap (fun row => leafUpdates (thrOf th top) (distOf data dist) row.toList) := by
+  obtain ⟨U', h1, hs, hrow, _⟩ :=
+    kernel_generate_leaf_updates_refines leaf_block th data dist top w N hw hok hok' hN fuel hf
+  refine ⟨U', h1, ?_⟩
+  have hmap : U'.toList.map (fun b => b.toList.filterMap updOf)
+      = leaf_block.toList.map (fun row => leafUpdates (thrOf th top) (distOf data dist) row.toList) := by
+    apply List.ext_getElem
+    · simp [hs]
+    · intro i hi1 hi2
+      have hi : i < leaf_block.size := by simpa using hi2
+      have hiU : i < U'.size := by omega
+      have := (hrow i hiU hi).2
+      simp only [List.getElem_map, Array.getElem_toList]
+      exact this
+  rw [List.flatMap_def, List.flatMap_def, hmap]
+
+/-- **All rows of a block at once (local join).**  Corollary of `kernel_generate_graph_updates_refines`: the whole
+result of the regenerated `generate_graph_updates`, read through `updOf` and concatenated in block order, is the
+concatenation over the block's vertices of the model's `joinUpdates`; in particular every update the kernel hands to the
+applier comes from the candidate rows of some vertex of the block — the kernel invents no pair.  This list is an `ups` of
+`local_join_delivers_both`. -/
+theorem kernel_local_join_all_rows {Q : Type} [LE Q] [LT Q] [DecidableLE Q] [DecidableLT Q]
+    (nb ob : Array (Array Int)) (th : Array Q) (data : Array (Array Q))
+    (dist : Array Q → Array Q → Q) (top : Q) (w N : Nat) (hob : ob.size = nb.size)
+    (hw : ∀ r (h : r < nb.size), nb[r].size = w ∧ (ob[r]'(by omega)).size = w)
+    (hok : ∀ r (h : r < nb.size), LeafRowOk nb[r] data.size ∧ LeafRowOk nb[r] th.size ∧
+      LeafRowOk (ob[r]'(by omega)) data.size ∧ LeafRowOk (ob[r]'(by omega)) th.size)
+    (hN : ∀ r (h : r < nb.size), LeafRowOk nb[r] N ∧ LeafRowOk (ob[r]'(by omega)) N)
+    (fuel : Nat) (hf : nb.size + w + w + 3 ≤ fuel) :
+    ∃ U', GenK.generate_graph_updates fuel top nb ob th data dist = some U' ∧
+      U'.toList.flatMap (fun b => b.toList.filterMap updOf)
+        = (List.range nb.size).flatMap (fun r =>
+            joinUpdates (thrOf th top) (distOf data dist) nb[r]!.toList ob[r]!.toList) ∧
+      (∀ u ∈ U'.toList.flatMap (fun b => b.toList.filterMap updOf),
+        ∃ r, r < nb.size ∧
+          u ∈ joinUpdates (thrOf th top) (distOf data dist) nb[r]!.toList ob[r]!.toList) := by
+  obtain ⟨U', h1, hs, hrow, _⟩ :=
+    kernel_generate_graph_updates_refines nb ob th data dist top w N hob hw hok hN fuel hf
+  have hmap : U'.toList.map (fun b => b.toList.filterMap updOf)
+      = (List.range nb.size).map (fun r =>
+          joinUpdates (thrOf th top) (distOf data dist) nb[r]!.toList ob[r]!.toList) := by
+    apply List.ext_getElem
+    · simp [hs]
+    · intro i hi1 hi2
+      have hi : i < nb.size := by simpa using hi2
+      have hiU : i < U'.size := by omega
+      have hio : i < ob.size := by omega
+      have := (hrow i hiU hi).2
+      simp only [List.getElem_map, List.getElem_range, Array.getElem_toList]
+      rw [this]
+      simp [hi, hio]
+  have hflat : U'.toList.flatMap (fun b => b.toList.filterMap updOf)
+        = (List.range nb.size).flatMap (fun r =>
+            joinUpdates (thrOf th top) (distOf data dist) nb[r]!.toList ob[r]!.toList) := by
+    rw [List.flatMap_def, List.flatMap_def, hmap]
+  refine ⟨U', h1, hflat, ?_⟩
+  intro u hu
+  rw [hflat, List.mem_flatMap] at hu
+  obtain ⟨r, hr, hur⟩ := hu
+  exact ⟨r, List.mem_range.mp hr, hur⟩
+
+/-- **One local-join step of the regenerated code, end to end.**  Compose the two refinement theorems: run the
+regenerated `generate_graph_updates` on a block of candidate rows, hand *its result* to the regenerated
+`apply_graph_updates_low_memory` (any positive thread count `T`, any bound `M` on the block sizes, enough fuel) on a
+rectangular `n × k` graph with `n = D.size` bounding the candidates.  Neither kernel reads or writes outside an array, and
+the graph that comes back is the model's `applyLow T` of the old graph with the concatenated `joinUpdates` of the block's
+vertices — so `local_join_delivers_both` (every pair is offered to both endpoints, rows are fed in update order) is a
+statement about what these two pieces of library code compute together, not only about the model. -/
+theorem kernel_local_join_then_apply {Q : Type} [LE Q] [LT Q] [DecidableLE Q] [DecidableLT Q]
+    (nb ob : Array (Array Int)) (th : Array Q) (data : Array (Array Q))
+    (dist : Array Q → Array Q → Q) (top : Q) (w : Nat) (hob : ob.size = nb.size)
+    (k : Nat) (hk : 0 < k) (I : Array (Array Int)) (D : Array (Array Q)) (F : Array (Array Int))
+    (hI : I.size = D.size) (hF : F.size = D.size)
+    (hrect : ∀ r (h : r < D.size), D[r].size = k ∧ (I[r]'(by omega)).size = k ∧ (F[r]'(by omega)).size = k)
+    (hw : ∀ r (h : r < nb.size), nb[r].size = w ∧ (ob[r]'(by omega)).size = w)
+    (hok : ∀ r (h : r < nb.size), LeafRowOk nb[r] data.size ∧ LeafRowOk nb[r] th.size ∧
+      LeafRowOk (ob[r]'(by omega)) data.size ∧ LeafRowOk (ob[r]'(by omega)) th.size)
+    (hN : ∀ r (h : r < nb.size), LeafRowOk nb[r] D.size ∧ LeafRowOk (ob[r]'(by omega)) D.size)
+    (fuel : Nat) (hf : nb.size + w + w + 3 ≤ fuel) :
+    ∃ U', GenK.generate_graph_updates fuel top nb ob th data dist = some U' ∧
+      ∀ (T M fuel' : Nat), 0 < T → (∀ b ∈ U'.toList, b.size ≤ M) → T + U'.size + M + k + 3 ≤ fuel' →
+        ∃ I' D' F' c, GenK.apply_graph_updates_low_memory fuel' I D F U' (T : Int) = some (I', D', F', c) ∧
+          zipGraph D' I' F' = (applyLow T (zipGraph D I F) ((List.range nb.size).flatMap (fun r =>
+            joinUpdates (thrOf th top) (distOf data dist) nb[r]!.toList ob[r]!.toList))).1 := by
+  obtain ⟨U', h1, hflat, _⟩ :=
+    kernel_local_join_all_rows nb ob th data dist top w D.size hob hw hok hN fuel hf
+  obtain ⟨U'', h1', _, _, hokT⟩ :=
+    kernel_generate_graph_updates_refines nb ob th data dist top w D.size hob hw hok hN fuel hf
+  have hU : U'' = U' := by rw [h1] at h1'; exact (Option.some.inj h1').symm
+  subst hU
+  refine ⟨U'', h1, ?_⟩
+  intro T M fuel' hT hM hf'
+  obtain ⟨I', D', F', hrun, _, _, _, _, hz⟩ :=
+    apply_graph_updates_low_memory_refines' k hk I D F U'' T M hT hI hF hrect hM hokT fuel' hf'
+  refine ⟨I', D', F', _, hrun, ?_⟩
+  rw [hz]
+  have : updsOf U'' = U''.toList.flatMap (fun b => b.toList.filterMap updOf) := by
+    simp [updsOf, List.filterMap_flatMap]
+  rw [this, hflat]
+
+/-- the composition executed by the Lean kernel: three points `5, 6, 9`, vertex 0 with new candidates `1, 2` and old candidate
+`0`, an empty `3 × 2` graph, two threads: the five updates of the example above give 7 accepted pushes (row 1 holds itself,
+through the self pair — as in the library) -/
+example : ((GenK.generate_graph_updates 12 (1000 : Nat) #[#[1, -1, 2], #[-1, -1, -1], #[-1, -1, -1]]
+      #[#[0, -1, -1], #[-1, -1, -1], #[-1, -1, -1]] #[0, 3, 100] #[#[5], #[6], #[9]]
+      (fun a b => if a[0]! ≤ b[0]! then b[0]! - a[0]! else a[0]! - b[0]!)).bind fun u =>
+    GenK.apply_graph_updates_low_memory 30 #[#[-1, -1], #[-1, -1], #[-1, -1]]
+      #[#[1000, 1000], #[1000, 1000], #[1000, 1000]] #[#[0, 0], #[0, 0], #[0, 0]] u 2)
+    = some (#[#[2, 1], #[0, 1], #[1, 2]], #[#[4, 1], #[1, 0], #[3, 0]], #[#[1, 1], #[1, 1], #[1, 1]], 7) := by
+  decide +kernel
+
 /-- **A single leaf is exact.**  Let `leaf` enumerate the points `0..n-1` exactly once (trailing
 `-1` padding allowed), `dist` be symmetric with finite values, and
 `g = init_rp_tree(empty graph, [leaf])`.  Then `g` has `n` rows of `k` slots and every row `p`:
